@@ -383,6 +383,23 @@ def run(ctx):
                     want_dt = datetime.datetime(1970, 1, 1) + datetime.timedelta(microseconds=us)
                     if tg_.value.get("datetime") != want_dt:
                         res.violation("get_plc_time-datetime", f"get_plc_time() datetime {tg_.value.get('datetime')!r} != {want_dt!r}", None)
+            # set_plc_time() without an argument writes the host's current time: it must lie between the host clock read just before
+            # and just after the call, and it is what get_plc_time() then reports (no wall-clock deadline involved)
+            import time as _time
+            t_before = int(_time.time() * 1_000_000) - 1
+            st, tg_ = b.call("set_plc_time", drv.set_plc_time)
+            t_after = int(_time.time() * 1_000_000) + 1
+            res.ev()
+            res.seen("time", "now")
+            if st != "ok" or not tg_:
+                res.violation("set_plc_time-now", f"set_plc_time() -> {tg_!r:.200}", None)
+            elif not t_before <= ctl.clock_us <= t_after:
+                res.violation("set_plc_time-now-value", f"set_plc_time() left the controller clock at {ctl.clock_us}; the host clock was between {t_before} and {t_after}", None)
+            else:
+                wrote = ctl.clock_us
+                st, tg_ = b.call("get_plc_time", drv.get_plc_time)
+                if st != "ok" or not tg_ or not isinstance(tg_.value, dict) or tg_.value.get("microseconds") != wrote:
+                    res.violation("get_plc_time", f"after set_plc_time() wrote {wrote}, get_plc_time() -> {tg_!r:.240}", None)
             # generic messages through the controller driver use the route the driver actually connected over
             # (a Micro800 drops the backplane hop while initialising)
             exp_route = () if micro else ((1, slot),)
